@@ -1,7 +1,8 @@
 --------------------------- MODULE Trace_AuthSession ---------------------------
 (* Validation of traces recorded from the real auth.Authenticator (harness/auth/c12_authsession_test.go) and,
    for the disabled-user clause, from the REST layer (harness/rest/c12_rest_session_test.go).
-   Lines:  {a:"Reset"}   {a:<action>, u, p, s, one, pr, kind, res:{op,u,p,s,pr,ok,who}, U, S, C, PC, L}
+   Lines:  {a:"Reset"}   {a:<action>, u, p, s, one, pr, kind, res:{op,u,p,s,pr,ok,who}, U, S, C, PC, L}   (S[s].aged = the stored
+   Expiration/Ttl say that more than 10% of the TTL has elapsed)
    U / S / C / PC / L are the REAL user documents, session documents, verified-password cache probes,
    presenter control points and presenter copies after the step; res is the REAL outcome of the call. *)
 EXTENDS AuthSession, TraceLib
@@ -42,10 +43,12 @@ GhostOf(a) ==
     [] a = "CreateSession" -> GhostCreateSession(R.s, R.u, R.one)
     [] a = "DeleteSession" -> GhostDropSession(R.s)
     [] a = "Expire"        -> GhostDropSession(R.s)
+    [] a = "Age"           -> GhostAge(R.s)
     [] a = "AuthPassword"  -> GhostAuthPassword(R.u, R.p)
     [] a = "AuthCookie"    -> GhostAuthSess(R.s)
     [] a = "AuthOneTime"   -> GhostAuthSess(R.s)
     [] a = "PGetS"         -> GhostPStep(R.pr, R.s, GT(R.s))
+    [] a = "PSet"          -> GhostPStep(R.pr, R.s, pgt[R.pr])
     [] a = "PGetU"         -> GhostPStep(R.pr, R.s, pgt[R.pr])
     [] a = "PDel"          -> GhostPStep(R.pr, R.s, pgt[R.pr])
 
@@ -61,15 +64,17 @@ ImplOf(a) ==
     [] a = "CreateSession" -> user[R.u].exists /\ ImplCreateSession(R.s, R.u, R.one)
     [] a = "DeleteSession" -> ImplDropSession("DeleteSession", R.s)
     [] a = "Expire"        -> ImplDropSession("Expire", R.s)
+    [] a = "Age"           -> sess[R.s].exists /\ ImplAge(R.s)
     [] a = "AuthPassword"  -> ImplAuthPassword(R.u, R.p)
     [] a = "AuthCookie"    -> ImplAuthSess("AuthCookie", R.s)
     [] a = "AuthOneTime"   -> ImplAuthSess("AuthOneTime", R.s)
     [] a = "PGetS"         -> pc[R.pr] = "idle" /\ ImplPGetS(R.pr, R.s, R.kind)
+    [] a = "PSet"          -> pc[R.pr] = "gotSr" /\ ImplPSet(R.pr)
     [] a = "PGetU"         -> pc[R.pr] = "gotS" /\ ImplPGetU(R.pr)
     [] a = "PDel"          -> pc[R.pr] = "gotU" /\ ImplPDel(R.pr)
 
 Actions == {"CreateUser", "SetPassword", "Disable", "Enable", "DeleteUser", "CreateSession", "DeleteSession", "Expire",
-            "AuthPassword", "AuthCookie", "AuthOneTime", "PGetS", "PGetU", "PDel"}
+            "Age", "AuthPassword", "AuthCookie", "AuthOneTime", "PGetS", "PSet", "PGetU", "PDel"}
 
 (* pass P: implementation variables := logged real state; ghosts advance from the logged inputs; no guard *)
 PEvent == \E a \in Actions : Ev(a) /\ Logged /\ GhostOf(a) /\ UNCHANGED hist
